@@ -99,12 +99,26 @@ class Box:
                     new_start_coord[-2] = max(new_start_coord[-2] * stride - skirt[1], 0)
                     new_end_coord[-2] = min(new_end_coord[-2] * stride + skirt[3], ifm_shape.width)
                 else:
-                    new_start_coord[-2] = max(new_start_coord[-2] * stride - skirt[1], split_offset[-2])
-                    new_end_coord[-2] = min(new_end_coord[-2] * stride + skirt[3], split_offset[-2] + split_shape[-2])
+                    # the stride applies to the position inside the output of the split op, not to its offset
+                    first_col = split_offset[-2]
+                    new_start_coord[-2] = max((new_start_coord[-2] - first_col) * stride - skirt[1], 0) + first_col
+                    new_end_coord[-2] = (
+                        min((new_end_coord[-2] - first_col) * stride + skirt[3], split_shape[-2]) + first_col
+                    )
 
             if len(new_start_coord) >= 3:
                 stride = strides[1]
                 skirt_top_remainder = skirt[0] % upscaling_factor
+                # as for the width: when combined with a split slice read, the rows that exist for this operation (and
+                # outside of which padding applies) are those of the output of the split op. The calculation below is
+                # done relative to its first row
+                first_row = 0
+                if split_offset is not None:
+                    first_row = split_offset[-3]
+                    ifm_shape = ifm_shape.with_height(split_shape[-3])
+                    new_start_coord[-3] -= first_row
+                    new_end_coord[-3] -= first_row
+                    original_end_coord[-3] -= first_row
 
                 total_stride = stride * (new_end_coord[-3] - new_start_coord[-3] - 1)
                 new_start_coord[-3] = new_start_coord[-3] * stride - skirt[0] + skirt_top_remainder
@@ -128,6 +142,8 @@ class Box:
                 new_start_coord[-3] = max(new_start_coord[-3] // upscaling_factor, 0)
                 new_end_coord[-3] = new_end_coord[-3] * stride + skirt[2] + (skirt[2] % upscaling_factor)
                 new_end_coord[-3] = max(min(new_end_coord[-3] // upscaling_factor, ifm_shape.height), 1)
+                new_start_coord[-3] += first_row
+                new_end_coord[-3] += first_row
 
         # Wrap the IFMs of broadcasted binary elementwise ops
         # at the limits of the non-broadcasted volumes
